@@ -59,13 +59,24 @@ def returned_expr(fn: ast.FunctionDef, flags: Dict[str, object]) -> ast.AST:
     contain no return (warnings) are skipped; local rebinding of a flag from an
     ``isinstance(flag, bool)`` normalisation is understood."""
     flags = dict(flags)
+    import copy as _copy
+    env: Dict[str, ast.AST] = {}      # locals bound on the path taken under these flag values (edge = self.offset; if tail: edge = edge + ..)
+
+    class _Env(ast.NodeTransformer):
+        def visit_Name(self, n):
+            if isinstance(n.ctx, ast.Load) and n.id in env:
+                return _copy.deepcopy(env[n.id])
+            return n
+
+    def subst(e):
+        return ast.fix_missing_locations(_Env().visit(_copy.deepcopy(e)))
 
     def run(stmts):
         for s in stmts:
             if isinstance(s, ast.Return):
                 if s.value is None:
                     raise Unknown("bare return")
-                return specialise_expr(s.value, flags)
+                return specialise_expr(subst(s.value), flags)
             if isinstance(s, ast.If):
                 v = eval_flag(s.test, flags)
                 if v is None:
@@ -79,12 +90,20 @@ def returned_expr(fn: ast.FunctionDef, flags: Dict[str, object]) -> ast.AST:
                         continue
                     if any(isinstance(n, ast.Return) for b in (s.body, s.orelse) for x in b for n in ast.walk(x)):
                         raise Unknown(f"return under undecidable test {ast.unparse(s.test)[:50]}")
+                    for b in (s.body, s.orelse):
+                        for x in b:
+                            for n in ast.walk(x):
+                                if isinstance(n, ast.Name) and isinstance(n.ctx, ast.Store):
+                                    env.pop(n.id, None)       # bound under a test the flags do not decide: not followed
                     continue
                 r = run(s.body if v else s.orelse)
                 if r is not None:
                     return r
                 continue
             if isinstance(s, ast.Expr):
+                continue
+            if isinstance(s, ast.Assign) and len(s.targets) == 1 and isinstance(s.targets[0], ast.Name) and s.targets[0].id not in flags:
+                env[s.targets[0].id] = specialise_expr(subst(s.value), flags)
                 continue
             if isinstance(s, (ast.Assign, ast.AnnAssign)):
                 continue
